@@ -2,8 +2,9 @@
 # Runs the repository's pinned baseline (command of /root/.vp/BASELINE.json) with the verif guard OFF
 # (no -tags verif, no overlay) and checks that every stable_pass test passes.
 export GOFLAGS=-mod=mod GOPROXY=off GOSUMDB=off
-cd /repo || exit 2
+cd "${BASELINE_DIR:-/repo}" || exit 2
 out=$(mktemp)
+export TMPDIR=$(mktemp -d)
 go test -mod=mod -json -vet=off -count=1 -timeout 25m ./... > "$out" 2>/dev/null
 python3 - "$out" <<'PY'
 import json,sys
@@ -20,5 +21,5 @@ for m in missing: print("MISSING", m)
 sys.exit(1 if missing else 0)
 PY
 rc=$?
-rm -f "$out"
+rm -rf "$out" "$TMPDIR"
 exit $rc
